@@ -187,10 +187,10 @@ def full_mode(pattern_text, flags=0):
     tr = Tr(flags)
     outs = []
     for items in alts:
-        if items and items[0] == (sc.AT, sc.AT_BEGINNING):
+        if items and items[0] in ((sc.AT, sc.AT_BEGINNING), (sc.AT, sc.AT_BEGINNING_STRING)):
             items = items[1:]
-        if not items or items[-1] != (sc.AT, sc.AT_END):
-            raise Untranslatable("alternative not terminated by $ (mode full)")
+        if not items or items[-1] not in ((sc.AT, sc.AT_END), (sc.AT, sc.AT_END_STRING)):
+            raise Untranslatable("alternative not terminated by $ or \\Z (mode full)")
         items = items[:-1]
         # (?:$) written as a group holding only the anchor
         outs.append(tr.seq(_strip_group_anchor(items)))
@@ -209,7 +209,7 @@ def full_mode_loose(pattern_text, flags=0):
         fixed = []
         for items in alts:
             its = list(items)
-            if its and its[0] == (sc.AT, sc.AT_BEGINNING):
+            if its and its[0] in ((sc.AT, sc.AT_BEGINNING), (sc.AT, sc.AT_BEGINNING_STRING)):
                 its = its[1:]
             if len(its) == 1 and its[0][0] == sc.SUBPATTERN and list(its[0][1][3]) == [(sc.AT, sc.AT_END)]:
                 fixed.append("EMPTY")
@@ -221,8 +221,8 @@ def full_mode_loose(pattern_text, flags=0):
             if its == "EMPTY":
                 outs.append("Eps")
                 continue
-            if not its or its[-1] != (sc.AT, sc.AT_END):
-                raise Untranslatable("alternative not terminated by $ (mode full)")
+            if not its or its[-1] not in ((sc.AT, sc.AT_END), (sc.AT, sc.AT_END_STRING)):
+                raise Untranslatable("alternative not terminated by $ or \\Z (mode full)")
             outs.append(tr.seq(its[:-1]))
         return alt(outs), {"alternatives": len(alts), "lookahead_rewrites": tr.rewrites}
     return full_mode(pattern_text, flags)
